@@ -354,6 +354,16 @@ type vScenario struct {
 	blackoutToMs    int
 	readerPauseMs   int // reader sleeps this long before starting to read (zero-window episodes)
 	bothClients     bool
+	// handshake mode
+	hsRole   int // 0 client/server, 1 both clients, 2 out-of-band tokens
+	hsFaults []vHsFault
+	hsSilent int
+}
+
+type vStale struct {
+	to   int
+	pkt  []byte
+	kind string
 }
 
 func vHash(b []byte) uint32 { return crc32.ChecksumIEEE(b) }
@@ -465,6 +475,9 @@ func vGenScenario(mode string, seed, idx int) *vScenario {
 	if r.chance(20) {
 		sc.readerPauseMs = r.pick(100, 1000, 5000)
 	}
+	if mode == "handshake" {
+		vGenHandshake(sc)
+	}
 	return sc
 }
 
@@ -479,9 +492,17 @@ func (sc *vScenario) header() string {
 	for _, s := range sc.streams {
 		ss = append(ss, fmt.Sprintf("%d/%d/%d/%d/%d", s.id, b(s.unordered), s.relType, s.relVal, s.dir))
 	}
-	return fmt.Sprintf("ilA=%d ilB=%d zcA=%d zcB=%d mtu=%d rcvbuf=%d block=%d tsnA=%d tsnB=%d streams=%s nmsg=%d drop=%d dup=%d delay=%d heal=%d blackout=%d-%d pause=%d both=%d",
+	var hf []string
+	for _, f := range sc.hsFaults {
+		hf = append(hf, fmt.Sprintf("%d/%d", f.pos, f.kind))
+	}
+	if len(hf) == 0 {
+		hf = []string{"none"}
+	}
+	return fmt.Sprintf("ilA=%d ilB=%d zcA=%d zcB=%d mtu=%d rcvbuf=%d block=%d tsnA=%d tsnB=%d streams=%s nmsg=%d drop=%d dup=%d delay=%d heal=%d blackout=%d-%d pause=%d both=%d role=%d hsfaults=%s silent=%d",
 		b(sc.il[0]), b(sc.il[1]), b(sc.zc[0]), b(sc.zc[1]), sc.mtu, sc.rcvBuf, b(sc.blockWrite), sc.tsn[0], sc.tsn[1],
-		strings.Join(ss, ","), len(sc.msgs), sc.dropPct, sc.dupPct, sc.maxDelayMs, sc.healMs, sc.blackoutFromMs, sc.blackoutToMs, sc.readerPauseMs, b(sc.bothClients))
+		strings.Join(ss, ","), len(sc.msgs), sc.dropPct, sc.dupPct, sc.maxDelayMs, sc.healMs, sc.blackoutFromMs, sc.blackoutToMs, sc.readerPauseMs, b(sc.bothClients),
+		sc.hsRole, strings.Join(hf, ","), sc.hsSilent)
 }
 
 // ---- running one scenario -------------------------------------------------------------------
@@ -493,6 +514,7 @@ type vRun struct {
 	mu   sync.Mutex
 	link *vLink
 	as   [2]*Association
+	stale []vStale
 }
 
 func (r *vRun) logf(format string, a ...any) {
@@ -657,7 +679,17 @@ func (r *vRun) wireLog() func(int, int, time.Duration, []byte, vFate) {
 		} else if f.delays[0] > 0 {
 			fs = "delay"
 		}
-		r.logf("e2e tx %d %d %d %d %s -> %s", from, idx, now.Microseconds(), len(pkt), fs, vPacketSummary(pkt))
+		sum := vPacketSummary(pkt)
+		r.logf("e2e tx %d %d %d %d %s -> %s", from, idx, now.Microseconds(), len(pkt), fs, sum)
+		if r.sc.mode == "handshake" {
+			for _, k := range []string{"INIT", "INITACK", "COOKIEECHO", "COOKIEACK"} {
+				if strings.HasSuffix(sum, " "+k) {
+					r.mu.Lock()
+					r.stale = append(r.stale, vStale{to: 1 - from, pkt: append([]byte(nil), pkt...), kind: k})
+					r.mu.Unlock()
+				}
+			}
+		}
 	}
 }
 
@@ -815,7 +847,23 @@ func (r *vRun) runTransfer() {
 		rwg.Wait()
 		return
 	}
-	// wait for the link to heal and for everything to drain (bounded virtual time)
+	r.waitDrain()
+	for i, s := range streams {
+		if s != nil {
+			r.logf("e2e sbuf %d %d -> %d", sc.streams[i].dir, sc.streams[i].id, s.BufferedAmount())
+		}
+	}
+	r.logEnd()
+	for side := 0; side < 2; side++ {
+		_ = r.as[side].Close()
+		r.link.ends[side].Close()
+	}
+	rwg.Wait()
+}
+
+// waitDrain waits for the link to heal and for everything to be acknowledged (bounded virtual time).
+func (r *vRun) waitDrain() {
+	sc := r.sc
 	limit := time.Duration(sc.healMs)*time.Millisecond + 600*time.Second
 	for time.Since(r.link.start) < limit {
 		time.Sleep(500 * time.Millisecond)
@@ -829,17 +877,6 @@ func (r *vRun) runTransfer() {
 	// let delayed acks / last reads settle
 	time.Sleep(2 * time.Second)
 	synctest.Wait()
-	for i, s := range streams {
-		if s != nil {
-			r.logf("e2e sbuf %d %d -> %d", sc.streams[i].dir, sc.streams[i].id, s.BufferedAmount())
-		}
-	}
-	r.logEnd()
-	for side := 0; side < 2; side++ {
-		_ = r.as[side].Close()
-		r.link.ends[side].Close()
-	}
-	rwg.Wait()
 }
 
 // graceful shutdown while data may still be queued / in flight, one-sided or crossed.
@@ -891,13 +928,23 @@ func vRunScenario(t *testing.T, l *vlog, sc *vScenario) {
 		globalMathRandomGenerator = &vRandGen{r: &vrand{s: uint64(sc.seed) + 99}, tsns: nil}
 		run.link = newVLink(nil)
 		run.link.fate = run.fate()
+		if sc.mode == "handshake" {
+			run.link.fate = run.hsFate()
+		}
 		run.link.log = run.wireLog()
 		run.link.logRx = func(to, from, idx int, now time.Duration) {
 			run.logf("e2e rx %d %d %d", to, idx, now.Microseconds())
 		}
 		run.logf("e2e new %s %d %d %s", sc.mode, sc.seed, sc.idx, sc.header())
 		defer run.teardown()
-		run.runTransfer()
+		switch sc.mode {
+		case "handshake":
+			run.runHandshake()
+		case "reset":
+			run.runReset()
+		default:
+			run.runTransfer()
+		}
 	})
 }
 
